@@ -42,6 +42,7 @@ FAMILY = [
     "@a{k\"1}\n@b{j}", "@a{k{1}\n@b{j}", "@a{k, t = 1,\n = }\n@b{j}", "x\\", "\\", "@a{k}\\", "@a{k, t = {\\}}\n@b{j}",
     "@a{k, a=1, a=2}\n@a{k, b=3}\n@string{s=1}@string{s=2}", "% only a comment", "@", "@a", "@a{", "@a{k", "@a{k,", "@a{k, t", "@a{k, t =",
     "@a{k, t = {", "@a{k, t = {x}", "@a{k, t = {x},", "@a{k,\n % year = 1968\n t = {multi\nline\n},\n u = 1\n}\n@b{j}", "@a{k, % c\n t\n =\n {x}\n ,}\nfoo", "\ufeff% c\n@a{k}", "\ufeff@a{k}", "\ufeff\n\nfoo\n@a{k}", "\ufeff", "x\ufeff\n@a{k}\ufeff", " @a{k} x\x0b\x0c\x1c\x85@b{j}", "\r@a{k}\r@b{j}\rx",
+    "@a{k,\u00a0\n t = 1,\u3000\r\n\r\n u = 2\n}\n@b{j}", "@a{k,\n\x0c\n t = 1,\x1c\n\x85\n u\u2028 = 2}\n\x0c\n@b{j,\n v = 3}", "@a{k\u00a0,\n t\u00a0=\u00a01\u00a0,\u00a0\n\u00a0u = {x}}",
 ]
 
 
@@ -63,15 +64,34 @@ def cases(tier, seed, shard, nshards):
         opts = grammar.Opts(max_items=r.choice([2, 4, 8]), entry_keys=r.choice([None, None, ["a", "b"]]),
                             field_keys=r.choice([None, None, ["t", "u"]]), big=0.01)
         text, _ = grammar.document(r, opts)
-        mode = i % 4
+        mode = i % 5
         if mode == 0:
             yield {"k": "gen", "text": text}
         elif mode == 1:
             yield {"k": "prefix", "text": text[:r.randint(0, len(text))]}
         elif mode == 2:
             yield {"k": "corrupt", "text": garbage.corrupt(r, text)}
-        else:
+        elif mode == 3:
             yield {"k": "bsnl", "text": garbage.inject(r, text, ["\\\n", "\\\r\n", "\\", "\n", "@x{", "\n\n"])}
+        else:
+            # white space other than blank/tab/CR/LF next to existing white space and commas: str.strip(), \s and
+            # str.isspace() accept it, ASCII-only patterns do not (seed C03-g); the recogniser re-derives the positions
+            yield {"k": "oddws", "text": oddws(r, text)}
+
+
+ODD_WS = ["\u00a0", "\u3000", "\x0c", "\x0b", "\u2028", "\u2029", "\x85", "\x1c", "\x1d", "\x1e", "\x1f", "\u2003", "\u202f", "\u1680", "\ufeff", "\u200b", "\r"]
+
+
+def oddws(r, text):
+    out = []
+    p = r.choice([0.05, 0.2, 0.5])
+    for c in text:
+        if c in " \t\n," and r.random() < p:
+            w = r.choice(ODD_WS) * r.choice([1, 1, 2])
+            out.append(w + c if r.random() < 0.5 else c + w)
+        else:
+            out.append(c)
+    return "".join(out)
 
 
 def check_lib(text, lib, ctx, api, items):
